@@ -272,6 +272,11 @@ func checkC13(a *checkArgs, r *Result) error {
 		}(j)
 	}
 	wg.Wait()
+	nlazy := 60
+	if a.tier == "thorough" {
+		nlazy = 400
+	}
+	lazyTie(r, dp, rand.New(rand.NewSource(a.seed+13)), nlazy)
 	return nil
 }
 
